@@ -44,7 +44,7 @@ def gen_callbacks(r, typ):
         elif k == "observable":
             out.append({"kind": "observable", "period": period, "log": r.random() < 0.6, "obs": r.choice([["Z"], ["user"], ["Z", "user"], ["X"]]), "num_samples": r.choice([2, 4, 5]), "num_chains": r.choice([0, 2]), "verbose": r.random() < 0.2})
         elif k == "logger":
-            out.append({"kind": "logger", "period": period, "custom_msg": r.random() < 0.5})
+            out.append({"kind": "logger", "period": period, "custom_msg": r.random() < 0.5, "blank_msgs": r.random() < 0.4})
         else:
             out.append(
                 {
@@ -54,6 +54,8 @@ def gen_callbacks(r, typ):
                     "metadata": r.choice(["callable", "dict", "dict", "live_dict", "none"]),
                     "metadata_only": r.random() < 0.2,
                     "file_name": r.choice(["ep{}.pt", "model_{}", "ck-{}-x.pt", "ck_{:03}.pt", "{:>5}-m.pt"]),
+                    # folder names are plain strings: braces in them are just characters
+                    "folder": r.choice(["ckpt", "ckpt", "ckpt", "lr_{0}_sweep", "run{}"]),
                 }
             )
     return out
@@ -195,8 +197,10 @@ def execute(plan):
                         rec["msgs"].append((cur["run"], cur["epoch"], msg))
 
                     if spec.get("custom_msg"):
-                        def msg_gen(nn_state, epoch, rec=rec, **kw):
+                        def msg_gen(nn_state, epoch, rec=rec, spec=spec, **kw):
                             rec["calls"].append((cur["run"], cur["epoch"], epoch, dict(kw)))
+                            if spec.get("blank_msgs") and epoch % 2 == 0:
+                                return ""  # "nothing to report" is still a message the user asked to have logged
                             return f"E{epoch}|{sorted(kw.items())}"
 
                         cb = Logger(spec["period"], logger_fn=logger_fn, msg_gen=msg_gen, tag="t1")
@@ -221,7 +225,7 @@ def execute(plan):
                         live_dicts.append(meta)
                     else:
                         meta = None
-                    rec["folder"] = f"ckpt{i}"
+                    rec["folder"] = spec.get("folder", "ckpt") + str(i)
                     cb = ModelSaver(spec["period"], rec["folder"], spec["file_name"], save_initial=spec["save_initial"], metadata=meta, metadata_only=spec["metadata_only"])
             except SimCrash:
                 construct_failed = True
@@ -450,6 +454,8 @@ def execute(plan):
                 actions += len(got)
                 for (r_, e, msg) in rec["msgs"]:
                     want = f"E{e}|{[('tag', 't1')]}" if spec.get("custom_msg") else "Epoch " + str(e) + ": " + str({"tag": "t1"})
+                    if spec.get("custom_msg") and spec.get("blank_msgs") and e % 2 == 0:
+                        want = ""
                     if msg != want:
                         run.violate("17-logmsg", f"logged {msg!r}, expected {want!r}", **detail)
                         break
